@@ -727,3 +727,99 @@ func TestVerifStream(t *testing.T) {
 	}
 	out.write(env.Out)
 }
+
+// ---------------------------------------------------------------- C10 workload (built with -race)
+
+type stQuietStream struct{ ctx context.Context }
+
+func (f *stQuietStream) Header() (metadata.MD, error) { return nil, nil }
+func (f *stQuietStream) Trailer() metadata.MD         { return nil }
+func (f *stQuietStream) CloseSend() error             { return nil }
+func (f *stQuietStream) Context() context.Context     { return f.ctx }
+func (f *stQuietStream) SendMsg(m interface{}) error  { return nil }
+func (f *stQuietStream) RecvMsg(m interface{}) error  { return nil }
+
+// TestVerifRaceStream: sender || receiver || Context/Header/Trailer on one
+// wrapped stream. The fake underlying stream keeps no shared harness state,
+// so it adds no happens-before edges.
+func TestVerifRaceStream(t *testing.T) {
+	env := vGetEnv()
+	if env.Prop == "" {
+		t.Skip("VERIF_PROP not set")
+	}
+	out := vNewOut(env, "race-stream")
+	n := int64(2000)
+	if env.Tier == "thorough" {
+		n = 30000
+	}
+	var streams, sends, recvs, bys int64
+	for _, idx := range env.vCases(n) {
+		rng := vNewRand(env.Seed, "race-stream", idx)
+		ctx, cancel := context.WithCancel(context.Background())
+		fail := rng.Intn(4) == 0
+		attempts := 0
+		streamer := func(sctx context.Context, d *grpc.StreamDesc, cc *grpc.ClientConn, method string, opts ...grpc.CallOption) (grpc.ClientStream, error) {
+			attempts++ // only ever called under the wrapper's lock
+			if fail && attempts == 1 {
+				return nil, errors.New("creation failed")
+			}
+			return &stQuietStream{ctx: sctx}, nil
+		}
+		cs, _ := GCPStreamClientInterceptor(ctx, &grpc.StreamDesc{}, nil, "/m", streamer)
+		var wg sync.WaitGroup
+		ns, nr := 1+rng.Intn(3), rng.Intn(3)
+		by := rng.Intn(4)
+		d1, d2 := rng.Intn(3), rng.Intn(3)
+		wg.Add(3)
+		go func() {
+			defer wg.Done()
+			for i := 0; i < d1; i++ {
+				runtime.Gosched()
+			}
+			for i := 0; i < ns; i++ {
+				cs.SendMsg(i)
+			}
+		}()
+		go func() {
+			defer wg.Done()
+			for i := 0; i < d2; i++ {
+				runtime.Gosched()
+			}
+			for i := 0; i < nr; i++ {
+				var x int
+				cs.RecvMsg(&x)
+			}
+		}()
+		go func() {
+			defer wg.Done()
+			switch by {
+			case 0:
+				cs.Context()
+			case 1:
+				cs.Trailer()
+			case 2:
+				cs.Context()
+				cs.Trailer()
+			case 3:
+				cs.Header()
+			}
+		}()
+		if rng.Intn(6) == 0 {
+			cancel()
+		}
+		wg.Wait()
+		cancel()
+		streams++
+		sends += int64(ns)
+		recvs += int64(nr)
+		bys++
+		out.Evaluations++
+	}
+	out.hitN("C10.stream-programs", streams)
+	out.hitN("C10.stream-sends", sends)
+	out.hitN("C10.stream-recvs", recvs)
+	out.nontrivial(vHashStrings([]string{"race-stream", fmt.Sprint(env.Batch)}))
+	out.nontrivial(vHashStrings([]string{"race-stream-b", fmt.Sprint(env.Batch)}))
+	out.sample(map[string]interface{}{"workload": "stream", "programs": streams, "sends": sends, "recvs": recvs})
+	out.write(env.Out)
+}
